@@ -175,6 +175,18 @@ def mpz_mul_2exp (s : St) (w u : Nat) (cnt : Nat) : St := mul_2exp 1 s w u cnt
 
 /-! ### mpz_tdiv_q_2exp — mpz/tdiv_q_2exp.c -/
 
+/-- tdiv_q_2exp.c:45-59 after the realloc; `cnt` already reduced -/
+def tdiv_q_2exp_body (s : St) (w u : Nat) (usize : Int) (limb_cnt wsize cnt : Nat) : St :=
+  let wp := s.PTR w                                           -- tdiv_q_2exp.c:45
+  let up := s.PTR u                                           -- tdiv_q_2exp.c:46
+  if cnt != 0 then                                            -- tdiv_q_2exp.c:49
+    let s := (mpn_rshift s wp (up.add limb_cnt) wsize cnt).1  -- tdiv_q_2exp.c:51
+    let (top, s) := s.load wp (wsize - 1)                     -- tdiv_q_2exp.c:52
+    s.setSize w (sgn (usize < 0) (wsize - (if top == 0 then 1 else 0)))   -- tdiv_q_2exp.c:52, 59
+  else
+    let s := MPN_COPY s wp (up.add limb_cnt) wsize            -- tdiv_q_2exp.c:56
+    s.setSize w (sgn (usize < 0) wsize)                       -- tdiv_q_2exp.c:59
+
 def mpz_tdiv_q_2exp (s : St) (w u : Nat) (cnt : Nat) : St :=
   let usize := s.SIZ u                                        -- tdiv_q_2exp.c:32
   let limb_cnt := cnt / 64                                    -- tdiv_q_2exp.c:33
@@ -182,19 +194,44 @@ def mpz_tdiv_q_2exp (s : St) (w u : Nat) (cnt : Nat) : St :=
   else
     let wsize := usize.natAbs - limb_cnt                      -- tdiv_q_2exp.c:34
     let s := MPZ_REALLOC s w wsize                            -- tdiv_q_2exp.c:42-43
-    let wp := s.PTR w                                         -- tdiv_q_2exp.c:45
-    let up := s.PTR u                                         -- tdiv_q_2exp.c:46
-    let cnt := cnt % 64                                       -- tdiv_q_2exp.c:48
-    if cnt != 0 then                                          -- tdiv_q_2exp.c:49
-      let s := (mpn_rshift s wp (up.add limb_cnt) wsize cnt).1   -- tdiv_q_2exp.c:51
-      let (top, s) := s.load wp (wsize - 1)                   -- tdiv_q_2exp.c:52
-      let wsize := wsize - (if top == 0 then 1 else 0)
-      s.setSize w (sgn (usize < 0) wsize)                     -- tdiv_q_2exp.c:59
-    else
-      let s := MPN_COPY s wp (up.add limb_cnt) wsize          -- tdiv_q_2exp.c:56
-      s.setSize w (sgn (usize < 0) wsize)                     -- tdiv_q_2exp.c:59
+    tdiv_q_2exp_body s w u usize limb_cnt wsize (cnt % 64)    -- tdiv_q_2exp.c:45-59
+
+/-- value-level result of mpz_tdiv_q_2exp with the allocation -/
+def Spec.tdiv_q_2exp (w u : Mpz.Mpz) (cnt : Nat) : Mpz.Mpz :=
+  let k := cnt / 64
+  if u.size.natAbs ≤ k then { w with size := 0, d := [] }
+  else
+    let n := u.size.natAbs - k
+    let a := (Mpz.grow w n).alloc
+    if cnt % 64 != 0 then
+      let r := (Mpir.rshift (u.d.drop k) (cnt % 64)).1
+      let n' := n - (if Mpz.topLimb r == 0 then 1 else 0)
+      ⟨a, sgn (u.size < 0) n', r.take n'⟩
+    else ⟨a, sgn (u.size < 0) n, u.d.drop k⟩
 
 /-! ### mpz_com — mpz/com.c -/
+
+/-- com.c:42-65 after the realloc (src ≥ 0), `size` = |SIZ src| -/
+def com_pos_body (s : St) (dst src : Nat) (size : Nat) : St :=
+  let src_ptr := s.PTR src                                    -- com.c:42
+  let dst_ptr := s.PTR dst                                    -- com.c:43
+  if size == 0 then                                           -- com.c:45
+    let s := s.store dst_ptr 0 1                              -- com.c:48
+    s.setSize dst (sgn true 1)                                -- com.c:49  -1
+  else
+    let (s, cy) := mpn_add_1 s dst_ptr src_ptr size 1         -- com.c:56
+    if cy != 0 then                                           -- com.c:57
+      let s := s.store dst_ptr size cy                        -- com.c:59
+      s.setSize dst (sgn true (size + 1))                     -- com.c:60, 65  -size
+    else s.setSize dst (sgn true size)                        -- com.c:65
+
+/-- com.c:77-84 after the realloc (src < 0) -/
+def com_neg_body (s : St) (dst src : Nat) (size : Nat) : St :=
+  let src_ptr := s.PTR src                                    -- com.c:77
+  let dst_ptr := s.PTR dst                                    -- com.c:78
+  let s := (mpn_sub_1 s dst_ptr src_ptr size 1).1             -- com.c:80
+  let (top, s) := s.load dst_ptr (size - 1)                   -- com.c:81
+  s.setSize dst (sgn false (size - (if top == 0 then 1 else 0)))   -- com.c:81, 84
 
 /-- `plus` = 1 in the C (`size + 1`) -/
 def com (plus : Nat) (s : St) (dst src : Nat) : St :=
@@ -202,25 +239,25 @@ def com (plus : Nat) (s : St) (dst src : Nat) : St :=
   if size ≥ 0 then                                            -- com.c:33
     let size := size.natAbs
     let s := MPZ_REALLOC s dst (size + plus)                  -- com.c:39-40
-    let src_ptr := s.PTR src                                  -- com.c:42
-    let dst_ptr := s.PTR dst                                  -- com.c:43
-    if size == 0 then                                         -- com.c:45
-      let s := s.store dst_ptr 0 1                            -- com.c:48
-      s.setSize dst (-1)                                      -- com.c:49
-    else
-      let (s, cy) := mpn_add_1 s dst_ptr src_ptr size 1       -- com.c:56
-      if cy != 0 then                                         -- com.c:57
-        let s := s.store dst_ptr size cy                      -- com.c:59
-        s.setSize dst (-((size + 1 : Nat) : Int))             -- com.c:60, 65
-      else s.setSize dst (-(size : Int))                      -- com.c:65
+    com_pos_body s dst src size
   else
     let size := size.natAbs                                   -- com.c:72
     let s := MPZ_REALLOC s dst size                           -- com.c:74-75
-    let src_ptr := s.PTR src                                  -- com.c:77
-    let dst_ptr := s.PTR dst                                  -- com.c:78
-    let s := (mpn_sub_1 s dst_ptr src_ptr size 1).1           -- com.c:80
-    let (top, s) := s.load dst_ptr (size - 1)                 -- com.c:81
-    s.setSize dst ((size - (if top == 0 then 1 else 0) : Nat) : Int)   -- com.c:81, 84
+    com_neg_body s dst src size
+
+/-- value-level result of mpz_com with the allocation (the style of Mpir/Model/Mpz.lean) -/
+def Spec.com (w u : Mpz.Mpz) : Mpz.Mpz :=
+  let n := u.size.natAbs
+  if u.size ≥ 0 then
+    let a := (Mpz.grow w (n + 1)).alloc
+    if n == 0 then ⟨a, sgn true 1, [1]⟩
+    else
+      let r := Mpir.add_1 u.d 1
+      if r.2 != 0 then ⟨a, sgn true (n + 1), r.1 ++ [r.2]⟩ else ⟨a, sgn true n, r.1⟩
+  else
+    let r := (Mpir.sub_1 u.d 1).1
+    let n' := n - (if Mpz.topLimb r == 0 then 1 else 0)
+    ⟨(Mpz.grow w n).alloc, sgn false n', r.take n'⟩
 
 def mpz_com (s : St) (dst src : Nat) : St := com 1 s dst src
 
